@@ -2658,6 +2658,146 @@ def ones_like_bool(x):
     return full_like(x, True, dtype=bool)
 
 
+def _sliding_window_view(x, window_shape, axis=None, **kw):
+    x = x if isinstance(x, ndarray) else asarray(x)
+    base = x._data_arr() if x._is_masked else x
+    if base.a.ndim != 1:
+        raise Unsupported("sliding_window_view on n-d")
+    w = int(window_shape[0] if isinstance(window_shape, (tuple, list)) else window_shape)
+    n = base.a.shape[0]
+    if w < 0:
+        raise ValueError("`window_shape` cannot contain negative values")
+    if w > n:
+        raise ValueError("window shape cannot be larger than input array shape")
+    out = _obj((n - w + 1, w))
+    for i in range(n - w + 1):
+        for j in range(w):
+            out[i, j] = base.a[i + j]
+    r = ndarray(out, base._dt)
+    if x._is_masked and kw.get("subok"):
+        m = _obj((n - w + 1, w))
+        mm = x._maskarray().a
+        for i in range(n - w + 1):
+            for j in range(w):
+                m[i, j] = mm[i + j]
+        return MaskedArray(r, ndarray(m, "bool"))
+    return r
+
+
+lib.stride_tricks.sliding_window_view = _sliding_window_view
+
+
+def digitize(x, bins, right=False):
+    """index of the bin each value falls in; bins must be monotonic (increasing or decreasing), as numpy requires"""
+    xa = x if isinstance(x, ndarray) else asarray(x)
+    b = bins if isinstance(bins, ndarray) else asarray(bins)
+    bl = [as_sfloat_strict(v) for v in b.a.flat]
+    nb = len(bl)
+    inc = bool(SBool(mk_and(*[(p.v <= q.v) for p, q in zip(bl, bl[1:])]))) if nb > 1 else True
+    if not inc:
+        dec = bool(SBool(mk_and(*[(p.v >= q.v) for p, q in zip(bl, bl[1:])])))
+        if not dec:
+            raise ValueError("bins must be monotonically increasing or decreasing")
+    data = xa._data_arr() if xa._is_masked else xa
+    out = _obj(data.a.shape)
+    for p in _np.ndindex(data.a.shape):
+        v = as_sfloat_strict(data.a[p])
+        cnt = z3.IntVal(0)
+        for q in bl:
+            if inc:
+                c = (q.v < v.v) if right else (q.v <= v.v)
+            else:
+                c = (q.v >= v.v) if right else (q.v > v.v)
+            cnt = cnt + mk_if(mk_or(v.nan, c) if inc else mk_and(mk_not(v.nan), c), z3.IntVal(1), z3.IntVal(0))
+        out[p] = SInt(cnt)
+    r = ndarray(out, "int64")
+    return MaskedArray(r, xa._mask_copy()) if xa._is_masked else r
+
+
+def select(condlist, choicelist, default=0):
+    conds = [c if isinstance(c, ndarray) else asarray(c) for c in condlist]
+    shape = conds[0].a.shape
+    out = full(shape, default, _np.result_type(*[_scalar_dtype(c) if not isinstance(c, ndarray) else c._dt for c in choicelist]))
+    for c, ch in reversed(list(zip(conds, choicelist))):
+        out = where(c, ch, out)
+    return out
+
+
+def _accumulate(kind):
+    def f(a, axis=0):
+        a = a if isinstance(a, ndarray) else asarray(a)
+        if a.a.ndim != 1:
+            raise Unsupported("accumulate n-d")
+        out = _obj(a.a.shape)
+        acc = None
+        for i, x in enumerate(a.a):
+            if acc is None:
+                acc = x
+            elif a._dt.kind == "f":
+                acc = _fmax(acc, x) if kind == "max" else _fmin(acc, x)
+            else:
+                c = (x.v > acc.v) if kind == "max" else (x.v < acc.v)
+                acc = SInt(mk_if(c, x.v, acc.v))
+            out[i] = acc
+        return ndarray(out, a._dt)
+    return f
+
+
+maximum.accumulate = _accumulate("max")
+minimum.accumulate = _accumulate("min")
+maximum.reduce = lambda a, axis=0: amax(a) if axis in (0, None) else amax(a, axis)
+minimum.reduce = lambda a, axis=0: amin(a) if axis in (0, None) else amin(a, axis)
+logical_or.reduce = lambda arrs, axis=0: _fold(arrs, "|")
+logical_and.reduce = lambda arrs, axis=0: _fold(arrs, "&")
+
+
+def _fold(arrs, op):
+    arrs = list(arrs)
+    acc = arrs[0]
+    for a in arrs[1:]:
+        acc = _binary(op, acc, a)
+    return acc
+
+
+def argmax(a, axis=None):
+    return _argext(a, "max")
+
+
+def argmin(a, axis=None):
+    return _argext(a, "min")
+
+
+def _argext(a, kind):
+    a = a if isinstance(a, ndarray) else asarray(a)
+    if a.a.ndim != 1 or a.a.size == 0:
+        raise ValueError("attempt to get argmax of an empty sequence") if a.a.size == 0 else Unsupported("argmax n-d")
+    best = 0
+    for i in range(1, a.a.shape[0]):
+        x, b = as_sfloat_strict(a.a[i]), as_sfloat_strict(a.a[best])
+        better = mk_and(mk_not(b.nan), mk_or(x.nan, (x.v > b.v) if kind == "max" else (x.v < b.v)))
+        if bool(SBool(better)):
+            best = i
+    return best
+
+
+def repeat(a, repeats, axis=None):
+    a = a if isinstance(a, ndarray) else asarray(a)
+    return ndarray(_np.repeat(a.a, int(repeats), axis), a._dt)
+
+
+def tile(a, reps):
+    a = a if isinstance(a, ndarray) else asarray(a)
+    return ndarray(_np.tile(a.a, reps), a._dt)
+
+
+def in1d(a, b):
+    return isin(a, b)
+
+
+def logical_not_all(x):
+    return (~x).all()
+
+
 def __getattr__(name):
     from .values import UnsupportedAttribute
     if name.startswith("__"):
